@@ -768,3 +768,48 @@ func (m *Model) PurgeAll() {
 		m.Purge(m.Locs[n])
 	}
 }
+
+// Clone deep-copies the model (same clock).
+func (m *Model) Clone() *Model {
+	n := NewModel(m.Now)
+	n.IdInject, n.MaxFacts = m.IdInject, m.MaxFacts
+	for name, l := range m.Locs {
+		nl := &MLoc{Name: name, Items: map[string]*Item{}, ReadOnly: l.ReadOnly}
+		for id, it := range l.Items {
+			nl.Items[id] = &Item{Id: it.Id, Body: CloneMap(it.Body), Expires: it.Expires}
+		}
+		n.Locs[name] = nl
+	}
+	for name, p := range m.Pending {
+		n.Pending[name] = map[string]bool{}
+		for k, v := range p {
+			n.Pending[name][k] = v
+		}
+	}
+	for name, u := range m.UncBy {
+		n.UncBy[name] = map[string]map[string]bool{}
+		for id, by := range u {
+			n.UncBy[name][id] = map[string]bool{}
+			for k, v := range by {
+				n.UncBy[name][id][k] = v
+			}
+		}
+	}
+	return n
+}
+
+// MarkFault makes the presence and content of id a don't-care until it is
+// written or removed again (an operation that named it failed or was
+// interrupted half-way).
+func (m *Model) MarkFault(loc, id string) {
+	m.markUnc(m.Loc(loc), id, map[string]bool{"+fault": true})
+}
+
+// ItemKey renders an item for old/new comparison ("" = absent).
+func (m *Model) ItemKey(loc, id string) string {
+	it, ok := m.Loc(loc).Items[id]
+	if !ok || !m.Live(it) {
+		return ""
+	}
+	return CanonSet(it.Body)
+}
